@@ -64,6 +64,7 @@ let classify (s : Float64.t) (sets : fpaths list) (rect : frect option) : string
   let extra = match rect with None -> [] | Some (((l, tp), r), b) -> [[(l, tp); (r, b)]] in
   let all = List.concat sets @ extra in
   " | DOM " ^ show_bool (in_domain_C16 s all) ^ " RNG " ^ show_bool (in_coord_range s all)
+  ^ " GUARD " ^ show_bool (List.for_all (range_guard_check s s) sets)
 
 let show_call c =
   let rect = match c.c_rect with
